@@ -110,3 +110,10 @@ package graph
 //@   ensures [C09:sound] forall d digest.Digest :: d in result ==> (exists k descriptor.Descriptor :: k in m.nodes && k.Digest == d)
 //@   ensures [fresh] result != nil && !old(alive(result))
 //@   modifies alloc, new map[digest.Digest]unit
+//@
+//@ func (*Memory).Index
+//@   requires [ri] graphRI(m)
+//@   ensures [C07:ri] graphRI(m)
+//@   ensures [C07:indexed] result == nil ==> K(node) in m.nodes && m.nodes[K(node)] == node
+//@   ensures [C07:preds] result == nil ==> (forall s, p descriptor.Descriptor :: inPreds(m, s, p) == (old(inPreds(m, s, p)) || (p == K(node) && succOf(K(node), s))))
+//@   modifies map[descriptor.Descriptor]ocispec.Descriptor@m.nodes, map[descriptor.Descriptor]set.Set[descriptor.Descriptor]@m.predecessors+m.successors, map[descriptor.Descriptor]unit, elems[ocispec.Descriptor], elems[byte], alloc
